@@ -55,7 +55,7 @@ def reply_to_events(meta, data, partial, rep):
 MAX_REJECTS = 40      # a rejected run costs extra JVM starts; beyond this many the verdict does not change
 
 
-def validate(defs_path, runs, name, spec="LexTrace.tla", cfg="LexTrace.cfg", jvms=8, per_file=4000, depth=0):
+def validate(defs_path, runs, name, spec="LexTrace.tla", cfg="LexTrace.cfg", jvms=8, per_file=12000, depth=0):
     """runs: list of event lists (each starting with a run event).  Returns (accepted_runs, rejects)
     where rejects is a list of dicts {run index, event index, event}."""
     wd = os.path.join(workdir(), "trace-%s-%d" % (name, os.getpid()))
